@@ -348,6 +348,7 @@ package core
 //@   requires[C12.ix_deletedeps_needs_wlock] heldW(s.RWMutex) || privileged(ctx)
 //@ func (*IndexedState).remHooks
 //@   requires[C12.ix_remhooks_needs_wlock] heldW(s.RWMutex) || privileged(ctx)
+//@   ensures[C12.ix_remhooks_revokes_privilege] old(privileged(ctx)) || !privileged(ctx)
 //@ func (*IndexedState).search
 //@   requires[C12.ix_search_needs_lock] held(s.RWMutex) || privileged(ctx)
 //@ func (*IndexedState).SearchForIDs
@@ -355,17 +356,17 @@ package core
 //@ func (*IndexedState).expire
 //@   requires[C12.ix_expire_needs_wlock] heldW(s.RWMutex) || privileged(ctx)
 //@ func (*IndexedState).get
-//@   requires[C12.ix_get_lock_or_flag] getLock || held(s.RWMutex) || privileged(ctx)
+//@   requires[C12.ix_get_lock_or_flag] (getLock && unheld(s.RWMutex)) || (!getLock && held(s.RWMutex)) || privileged(ctx)
 //@ func (*LinearState).rem
-//@   requires[C12.lin_rem_lock_or_flag] lock || heldW(s.RWMutex) || privileged(ctx)
+//@   requires[C12.lin_rem_lock_or_flag] (lock && unheld(s.RWMutex)) || (!lock && heldW(s.RWMutex)) || privileged(ctx)
 //@ func (*LinearState).deleteDependencies
 //@   requires[C12.lin_deletedeps_needs_wlock] heldW(s.RWMutex) || privileged(ctx)
 //@ func (*LinearState).search
-//@   requires[C12.lin_search_lock_or_flag] lock || held(s.RWMutex) || privileged(ctx)
+//@   requires[C12.lin_search_lock_or_flag] (lock && unheld(s.RWMutex)) || (!lock && held(s.RWMutex)) || privileged(ctx)
 //@ func (*LinearState).expire
 //@   requires[C12.lin_expire_needs_wlock] heldW(s.RWMutex) || privileged(ctx)
 //@ func (*LinearState).get
-//@   requires[C12.lin_get_lock_or_flag] getLock || held(s.RWMutex) || privileged(ctx)
+//@   requires[C12.lin_get_lock_or_flag] (getLock && unheld(s.RWMutex)) || (!getLock && held(s.RWMutex)) || privileged(ctx)
 
 // Mutating entry points are not re-entered from inside a hook (documented protocol; assumption).
 //@ func (*IndexedState).Add
@@ -374,6 +375,7 @@ package core
 //@   assume-entry !privileged(ctx)
 //@ func (*IndexedState).Load
 //@   assume-entry !privileged(ctx)
+//@   loop 1: invariant[C12.ix_load_not_privileged] !privileged(ctx)
 //@ func (*IndexedState).Clear
 //@   assume-entry !privileged(ctx)
 //@ func (*IndexedState).Delete
